@@ -333,7 +333,7 @@ LY_TEXT = st.text(alphabet=st.characters(min_codepoint=32, max_codepoint=0x2FF, 
 _EDGE = ["", "", "&", "<", ">", '"', "'", "&amp;", "&lt;b&gt;", "<!--", "]]>", "<b>", "a&b"]
 _MID = st.text(alphabet=st.one_of(st.sampled_from(list(MARKUP + " abcXYZ09")),
                                   st.characters(min_codepoint=33, max_codepoint=0x24F, blacklist_categories=("Cc",))), max_size=8)
-MX_TEXT = st.builds(lambda a, m, z: (a + m + z).strip() or "x", st.sampled_from(_EDGE), _MID, st.sampled_from(_EDGE))
+MX_TEXT = st.builds(lambda a, m, z: (a + m + z) or "x", st.sampled_from(_EDGE + [" ", "  ", " x"]), _MID, st.sampled_from(_EDGE + [" ", "  ", "x "]))
 
 
 def _cfg(text, **kw):
